@@ -52,16 +52,8 @@ SIBLINGS = [
     (TRI_VALIDATE, TR + 'validation_report'),
     (DT_VALIDATE, DTQ + 'validation_report'),
 ]
-SIBLING_EXCEPTIONS = {
-    (TR + 'validation_report', MAN + 'validate_vertex_links'):
-        'Triangulation::validate ends with validate_at_completion (vertex links for PLManifold) but the report does not '
-        're-run it; a complex whose only fault is a non-sphere vertex link would fail validate() with an empty report. No '
-        'geometric realisation found (needs every cone cell positively oriented); recorded as a reasoned asymmetry',
-    (DTQ + 'validation_report', MAN + 'validate_vertex_links'):
-        'inherits the Triangulation::validation_report asymmetry above',
-    (TR + 'validation_report', TRI_COMPLETE): 'same asymmetry (the wrapper of the vertex-link completion check)',
-    (DTQ + 'validation_report', TRI_COMPLETE): 'same asymmetry',
-}
+# empty since fix ec4b413 (the report now runs validate_at_completion); before it, four entries excused the asymmetry
+SIBLING_EXCEPTIONS = {}
 
 
 def run(ctx):
